@@ -20,6 +20,7 @@ func init() {
 			"R19.3 the merged view is write-only within the cycle: the Coordinator field holding it is read by no function reachable from the cycle, and the local accumulator flows only into the merge call and the final store; " +
 			"R19.4 every scale request and shard listing of an iteration is addressed to that iteration's own replica manager, in the iteration itself (not from a goroutine that outlives it). " +
 			"R19.1 also: a mutex taken inside the replica loop is released on every path before the same acquisition is reached again; R19.3 also: what the merge installs in the merged view is a copy, never the pointer found in the replica's view (which belongs to the explorer or to a shard's report and would be overwritten in place). " +
+			"R19.1 also: the replica loop is not left by a break. " +
 			"Not decided: sharing through the explorer's long-lived status objects that are placed into plans by pointer (a value argument).",
 		Assumptions: []string{"go/types and go/ssa are correct (go.mod's language version decides loop-variable semantics)", "calls through injected function fields do not touch other replicas' state"}})
 }
@@ -118,6 +119,18 @@ func runC19(p *engine.Prog, r *engine.Report) {
 				probs = append(probs, "return inside the replica loop at "+p.Rel(last.Pos()))
 			case *ssa.Panic:
 				probs = append(probs, "panic inside the replica loop at "+p.Rel(last.Pos()))
+			}
+		}
+		// nor by a break: the block after the loop is entered from the header only
+		for _, sc := range loop.header.Succs {
+			if loop.blocks[sc.Index] {
+				continue
+			}
+			for _, pb := range sc.Preds {
+				if pb != loop.header && bodyEntry != nil && (bodyEntry == pb || bodyEntry.Dominates(pb)) {
+					last := pb.Instrs[len(pb.Instrs)-1]
+					probs = append(probs, "the replica loop is left from inside an iteration (break) near "+p.Rel(last.Pos())+": the replicas after this one are not coordinated in the cycle")
+				}
 			}
 		}
 		// a method call on an interface value that is nil on every path to it panics just the same
